@@ -13,3 +13,10 @@ Proof.
   unfold f_finite in Ha, Hb. rewrite (Binary.Bcompare_correct 53 1024 (fb a) (fb b) Ha Hb). cbn [CompOpp].
   destruct (Raux.Rcompare (Binary.B2R 53 1024 (fb a)) (Binary.B2R 53 1024 (fb b))); reflexivity.
 Qed.
+
+Lemma flocq_eq_sym : forall a b, f_finite a = true -> f_finite b = true -> n_eq flocq_ops a b = n_eq flocq_ops b a.
+Proof.
+  intros a b Ha Hb. cbn [n_eq flocq_ops]. unfold f_eq, f_cmp, b64_compare.
+  rewrite (Binary.Bcompare_swap 53 1024 (fb a) (fb b)).
+  destruct (Binary.Bcompare 53 1024 (fb a) (fb b)) as [[| |]|]; reflexivity.
+Qed.
